@@ -4,6 +4,9 @@ Specification: specs/ResultSummary.tla (staged model Choose / HeadStep / RowStep
 PadPositive, NoZeroP, AlignedWhenFinite, FooterTotal checked by TLC over cv_method x test type x name lengths x
 number classes).  The numbers themselves are C06's subject; what is decided here is what is SHOWN for them.
 
+spec -> impl : every finished table of a small grid (cv_method x test type x 1-2 models x name lengths x NaN / '<' /
+               numeric cells) is emitted by TLC with its input and replayed: a Result built with the public constructor
+               whose accessors are pinned to the vector's values is printed by the real summary() and compared cell by cell.
 impl -> spec : Result objects produced by the real evaluation routines (eval_fixed, eval_bootstrap_rdm,
                eval_bootstrap_pattern, eval_dual_bootstrap, crossval, bootstrap_crossval) on small random data are
                summarised with every test type; the printed table is parsed back and logged together with what the
@@ -31,6 +34,52 @@ def cfg(quick):
              f'  ValGrid <- {"MCValGridQ" if quick else "MCValGrid"}', '  PGrid <- MCPGrid', '  MaxModels = 2']
     lines += [f'INVARIANT {i}' for i in INVS] + ['CHECK_DEADLOCK FALSE']
     return '\n'.join(lines) + '\n'
+
+
+EMIT_CFG = '\n'.join(['SPECIFICATION Spec', 'CONSTANTS', '  LenGrid <- MCLenGridE', '  ValGrid <- MCValGridE',
+                      '  PGrid <- MCPGridE', '  MaxModels = 2', 'INVARIANT Emit', 'CHECK_DEADLOCK FALSE']) + '\n'
+
+
+def _val(u):
+    return float('nan') if u == NAN else u / 1e6
+
+
+def replay_vector(vec):
+    """One finished table of the model through the real summary(): a Result built with the public constructor whose
+    accessors are pinned (instance attributes) to the values of the vector.  Returns None or (clause, detail)."""
+    from rsatoolbox.inference.result import Result
+    from rsatoolbox.model import ModelFixed
+    inp, doc = vec['inp'], vec['doc']
+    n = inp['n']
+    models = [ModelFixed('m' * inp['lens'][i], np.arange(3.0) + 1) for i in range(n)]
+    res = Result(models, np.zeros((4, n)), method='corr', cv_method=inp['cv'], noise_ceiling=np.zeros((2, 4)))
+    res.get_means = lambda: np.array([_val(u) for u in inp['means']])
+    res.get_sem = lambda: np.array([_val(u) for u in inp['sems']])
+    res.test_zero = lambda test_type='t-test': np.array([_val(u) for u in inp['pz']])
+    res.test_noise = lambda test_type='t-test': np.array([_val(u) for u in inp['pn']])
+    try:
+        text = res.summary(test_type=inp['tt'])
+        ev = parse_summary(text, res, inp['tt'], given=inp)
+    except Exception as e:
+        return f'raises/{type(e).__name__}', str(e)[:120]
+    rule = [d for d in doc if d['kind'] == 'rule'][0]
+    rows = [d for d in doc if d['kind'] == 'row']
+    foot = [d for d in doc if d['kind'] == 'foot'][0]
+    if ev['rule'] != rule['len']:
+        return 'Rule', {'shown': ev['rule'], 'spec': rule['len']}
+    if ev['footer'] != foot['which']:
+        return 'Footer', {'shown': ev['footer'], 'spec': foot['which']}
+    if ev['headn'] != n or ev['headcv'] != inp['cv']:
+        return 'Header', text.split('\n')[0]
+    if len(ev['rows']) != len(rows):
+        return 'RowCount', {'shown': len(ev['rows']), 'spec': len(rows)}
+    for r, d in zip(ev['rows'], rows):
+        if r['pad'] != d['pad'] or r['len'] != d['len']:
+            return 'Row/layout', {'shown': [r['pad'], r['len']], 'spec': [d['pad'], d['len']], 'text': text}
+        for c in ('mean', 'sem', 'pz', 'pn'):
+            if r[c]['cls'] != d[c]['cls'] or (d[c]['cls'] == 'num' and r[c]['txt'] != d[c]['txt']):
+                return f'Row/{c}', {'shown': r[c], 'spec': d[c], 'text': text}
+    return None
 
 
 TRACE_CFG = '\n'.join(['SPECIFICATION TSpec', 'CONSTANTS', '  LenGrid <- MCLenGrid', '  ValGrid <- MCValGrid',
@@ -76,7 +125,7 @@ def cell(txt, tie):
     return {'cls': 'other:' + t[:12], 'txt': 0, 'tie': False}
 
 
-def parse_summary(text, res, tt):
+def parse_summary(text, res, tt, given=None):
     """printed table + accessor values -> one trace event (or raises ValueError if the text has no table shape)"""
     lines = text.split('\n')
     m = re.match(r'^Results for running (\S+) evaluation for (.*) on (\d+) models:$', lines[0])
@@ -99,6 +148,10 @@ def parse_summary(text, res, tt):
     ties = []
     for arr, key in ((means, 'means'), (sems, 'sems'), (pz, 'pz'), (pn, 'pn')):
         t = []
+        if given is not None:       # replay of a specification vector: the integers are the specification's own
+            ev[key] = list(given[key])
+            ties.append([False] * n)
+            continue
         for x in arr:
             u, tie = micro(x)
             ev[key].append(u)
@@ -173,6 +226,28 @@ def run(ctx):
                 'table ResultSummary.tla derives from the values the public accessors return; summary() must not raise')
     r = ctx.tlc('MC_ResultSummary', cfg(not thorough), name='model', timeout=900)
     ctx.exhaustive = True
+    # ---- specification -> implementation: every finished table of the small grid through the real summary()
+    re_ = ctx.tlc('MC_ResultSummary', EMIT_CFG, name='emit', timeout=900)
+    if re_.n_emitted < 1000:
+        raise MachineryError(f'vacuous: only {re_.n_emitted} tables emitted')
+    nrep = 0
+    seen_cls = set()
+    for k, vec in enumerate(re_.iter_emitted()):
+        if not thorough and vec['inp']['n'] == 2 and (k + ctx.seed) % 4:
+            continue
+        nrep += 1
+        ctx.count()
+        for d in vec['doc']:
+            if d['kind'] == 'row':
+                seen_cls.add((d['pz']['cls'], d['pn']['cls'], d['mean']['cls'], d['sem']['cls']))
+        bad = replay_vector(vec)
+        if bad:
+            ctx.violation(f"X02/replay/{vec['inp']['cv']}/{vec['inp']['tt']}/{bad[0]}",
+                          f"summary() of a result whose accessors return the specification's values does not print "
+                          f"the specification's table ({bad[0]})", {'vector': vec, 'detail': bad[1]})
+    ctx.traces += nrep
+    ctx.extra['replayed_tables'] = nrep
+    ctx.extra['replayed_row_classes'] = len(seen_cls)
     rng = np.random.default_rng(1000 + ctx.seed)
     results = make_results(rng, thorough)
     classes = {(cv, tt): 0 for cv in ('fixed', 'bootstrap_rdm', 'bootstrap_pattern', 'dual_bootstrap',
@@ -237,13 +312,25 @@ def run(ctx):
                       f'the table printed for a {cv} result with test_type={tt!r} is not the table the specification '
                       f'derives from the accessor values (clauses {clauses})', {'event': traces[i][0], 'text': text})
     ctx.sample({'event': traces[0][0], 'text': origin[0][3]}) if traces else None
-    # ---- self-test: corruptions of an accepted event must all be rejected
-    rej = {i for i, _ in rejected}
-    good = [i for i in range(len(traces)) if i not in rej and traces[i][0]['rows']
-            and traces[i][0]['rows'][0]['pz']['cls'] == 'num' and not traces[i][0]['rows'][0]['pz']['tie']]
-    if not good:
-        raise MachineryError('self-test impossible: no accepted trace with a numeric p-value cell')
-    base = traces[good[0]][0]
+    # ---- self-test: corruptions of an event must all be rejected.  The base event is built from a table the
+    # SPECIFICATION emitted (not from the implementation, which a faulty tree may have made unacceptable throughout)
+    base = None
+    for vec in re_.iter_emitted():
+        rws = [d for d in vec['doc'] if d['kind'] == 'row']
+        if rws[0]['pz']['cls'] == 'num' and vec['inp']['means'][0] != NAN:
+            i_ = vec['inp']
+            base = {'cv': i_['cv'], 'tt': i_['tt'], 'n': i_['n'], 'headn': i_['n'], 'headcv': i_['cv'],
+                    'lens': i_['lens'], 'rule': vec['doc'][0]['len'], 'means': i_['means'], 'sems': i_['sems'],
+                    'pz': i_['pz'], 'pn': i_['pn'], 'footer': vec['doc'][-1]['which'],
+                    'rows': [{'pad': d['pad'], 'len': d['len'],
+                              **{c: dict(d[c], tie=False) for c in ('mean', 'sem', 'pz', 'pn')}} for d in rws]}
+            break
+    if base is None:
+        raise MachineryError('self-test impossible: no emitted table with a numeric p-value cell')
+    ok0 = ctx.validate('MC_Trace_ResultSummary', TRACE_CFG, [[base]], name='trace_selftest_base', timeout=600)
+    if ok0:
+        raise MachineryError(f'self-test: the uncorrupted specification table is rejected: {ok0}')
+    ctx.traces -= 1
     muts = []
     for name, f in (('cls', lambda e: e['rows'][0]['pz'].update(cls='lt')),
                     ('txt', lambda e: e['rows'][0]['pz'].update(txt=e['rows'][0]['pz']['txt'] + 1)),
